@@ -10,8 +10,57 @@ use crate::error::{QueryError, Result};
 use sqlparser::dialect::GenericDialect;
 use sqlparser::parser::Parser;
 
+/// Deepest parenthesis nesting handed to sqlparser. Its recursion limit (50) is reached at depth 48
+/// for constructs it parses speculatively (`CAST(`, ...); from there it backtracks exponentially
+/// instead of failing (nested CAST at depth 47: 10 ms, depth 48: no answer after 60 s).
+const MAX_PAREN_DEPTH: usize = 47;
+
+/// Parenthesis depth of `sql`, ignoring quoted strings / identifiers and `--` comments.
+fn paren_depth(sql: &str) -> usize {
+    let (mut depth, mut best) = (0usize, 0usize);
+    let mut quote: Option<char> = None;
+    let mut chars = sql.chars().peekable();
+    while let Some(c) = chars.next() {
+        match quote {
+            Some(q) => {
+                if c == q {
+                    quote = None;
+                }
+            }
+            None => match c {
+                '\'' | '"' | '`' => quote = Some(c),
+                '-' if chars.peek() == Some(&'-') => {
+                    for d in chars.by_ref() {
+                        if d == '\n' {
+                            break;
+                        }
+                    }
+                }
+                '(' => {
+                    depth += 1;
+                    best = best.max(depth);
+                }
+                ')' => depth = depth.saturating_sub(1),
+                _ => {}
+            },
+        }
+    }
+    best
+}
+
+/// Reject statements sqlparser cannot parse in bounded time
+fn check_nesting(sql: &str) -> Result<()> {
+    if paren_depth(sql) > MAX_PAREN_DEPTH {
+        return Err(QueryError::Parse(format!(
+            "expression nesting deeper than {MAX_PAREN_DEPTH} parentheses"
+        )));
+    }
+    Ok(())
+}
+
 /// Parse a SQL query string into a Statement AST
 pub fn parse_sql(sql: &str) -> Result<sqlparser::ast::Statement> {
+    check_nesting(sql)?;
     let dialect = GenericDialect {};
     let mut statements = Parser::parse_sql(&dialect, sql)?;
 
@@ -30,6 +79,7 @@ pub fn parse_sql(sql: &str) -> Result<sqlparser::ast::Statement> {
 
 /// Parse multiple SQL statements
 pub fn parse_sql_statements(sql: &str) -> Result<Vec<sqlparser::ast::Statement>> {
+    check_nesting(sql)?;
     let dialect = GenericDialect {};
     let statements = Parser::parse_sql(&dialect, sql)?;
     Ok(statements)
